@@ -298,6 +298,19 @@ def enc_strs(l):
     return out
 
 
+def lock_table(impl, letter=b'C:'):
+    """the lock table of a drive (Locks._locking_parameters) as list of ints: n, then per entry
+    number, mode, name, lock type, access"""
+    params = impl.files._devices[letter]._locks._locking_parameters
+    out = [len(params)]
+    for number, f in params.items():
+        out += [number, (f.mode or b'\0')[0]]
+        for x in (f.name, f.lock_type, f.access):
+            x = bytes(x or b'')
+            out += [len(x)] + list(x)
+    return out
+
+
 def run_history(case, with_listing=True):
     """Run the statements of a case in a fresh Session on a fresh sandbox.
     Returns (encoded output, snapshots per step (None = unchanged), violations found by the oracle)."""
@@ -350,7 +363,9 @@ def run_history(case, with_listing=True):
                     except Exception as e:
                         host = common.canon_exc(e)
                     ops, audit = mon.stop()
+                    locks_open = lock_table(impl)
                     s.execute('CLOSE')
+                    locks_closed = lock_table(impl)
                     # status
                     if host is not None:
                         status = host
@@ -389,6 +404,7 @@ def run_history(case, with_listing=True):
                             viol.append('%s %r: audited %s on %s (outside the mounts)' % (kind, bytes(st[1]), ev, ap))
                     lines = listings[0] if (listings and status == [0, 0] and kind in ('FILES', 'FILES0')) else []
                     details.append({'kind': kind, 'status': status, 'lines': [bytes(x) for x in lines],
+                                    'locks': locks_open + locks_closed,
                                     'ops': [(k, m, [sb.rel(p) for p in ps], failed) for k, m, ps, failed in ops],
                                     'after': sb.snapshot()})
                     out += enc_strs([list(x) for x in lines]) if with_listing else [0]
@@ -407,12 +423,14 @@ def run_history(case, with_listing=True):
     return out, snaps, viol, details
 
 
-def history_term(case, snaps):
+def history_term(case, snaps, with_locks=False):
     steps = []
     for st, sn in zip(case['steps'], snaps):
         steps.append('(%s, %s)' % ('None' if sn is None else 'Some %s' % snapshot_term(sn), stmt_term(st)))
     s0 = ('{| st_cur := 67; st_drives := [%s] |}' % ';'.join(
         '(%d, {| ds_mounted := %s; ds_cwd := [] |})' % (l, 'true' if m else 'false') for l, m in DRIVES))
+    if with_locks:
+        return 'run_enc_locks %s [%s]' % (s0, ';'.join(steps))
     return 'run_enc_opt %s [] [%s]' % (s0, ';'.join(steps))
 
 
